@@ -1,2 +1,1084 @@
-"""placeholder"""
-def generate(*a, **k): raise NotImplementedError
+"""modelsim fault modes: located single fault (C12) and chaos (C13)."""
+from __future__ import annotations
+
+import copy
+import re
+
+from ..core import EventLog, RunResult, SimAbort, h64
+from ..render import render, random_layout, PLAIN
+from ..seams import ExecMonitor, Hygiene, StdCapture, innermost_frame
+from ..simfs import SimFS
+from .. import modelgen
+from ..refmodel import eems
+from ..refmodel.declarations import table as decl_table
+
+DECL = decl_table("csv")
+WORK = modelgen.WORK
+MODEL_PATH = WORK + "/model.mpt"
+
+# ------------------------------------------------------------------------------------------------
+# the fault matrix
+# ------------------------------------------------------------------------------------------------
+WRONG12 = {
+    "number": [("str", "abc"), ("list", [1, 2]), ("tuple", {"K": "v"})],
+    "numbers": [("scalar-number", 3), ("scalar-str", "abc"), ("tuple", {"K": "v"}), ("item-str", "$ITEM:abc")],
+    "result": [("number", 5), ("list", ["$REF"]), ("unknown", "nosuch")],
+    "results": [("scalar", "$REF"), ("tuple", {"K": "v"}), ("item-unknown", "$ITEM:nosuch"), ("item-number", "$ITEM:7")],
+    "bool": [("str", "maybe"), ("list", [1])],
+    "datatype": [("unknown", "Complex"), ("number", 5), ("list", ["Float"])],
+    "tuple": [("scalar", "x"), ("list", [1, 2])],
+    "path_in": [("missing-file", "nofile.csv"), ("relative-no-wd", "in.csv")],
+    "path_out": [("relative-no-wd", "out2.csv")],
+}
+# kinds that only the chaos mode uses (the statement of C12 does not list them)
+WRONG13_EXTRA = {
+    "number": [("nested-list", [[1], [2, [3]]]), ("bool", True), ("empty-list", [])],
+    "numbers": [("nested-list", [[1, 2], [3]]), ("item-list", "$ITEM:[1]"), ("item-tuple", "$ITEM:{}")],
+    "result": [("tuple", {"K": "v"}), ("nested-list", [["$REF"]]), ("float", 0.5)],
+    "results": [("nested-list", [["$REF"]]), ("number", 3), ("item-list", "$ITEM:[$REF]")],
+    "bool": [("tuple", {"K": "v"}), ("float", 0.5), ("nested-list", [[1]])],
+    "datatype": [("tuple", {"K": "v"}), ("nested-list", [["Float"]]), ("float", 0.5)],
+    "tuple": [("number", 5), ("nested-list", [[1]]), ("float", 0.5)],
+    "path_in": [("number", 5), ("list", ["in.csv"]), ("tuple", {"K": "v"}), ("float", 0.5)],
+    "path_out": [("number", 5), ("list", ["out.csv"]), ("tuple", {"K": "v"})],
+    "string": [("list", ["a", "b"]), ("tuple", {"K": "v"}), ("nested-list", [["a"]]), ("number", 5)],
+}
+
+
+def build_matrix(extended=False):
+    cells = []
+    for cmd in sorted(DECL):
+        d = DECL[cmd]
+        cells.append({"kind": "unknown-command", "cmd": cmd})
+        cells.append({"kind": "duplicate-result", "cmd": cmd})
+        cells.append({"kind": "extra-param", "cmd": cmd})
+        for pname in sorted(d["params"]):
+            p = d["params"][pname]
+            if p["required"]:
+                cells.append({"kind": "missing-param", "cmd": cmd, "param": pname})
+            kinds = list(WRONG12.get(p["kind"], []))
+            if extended:
+                kinds += WRONG13_EXTRA.get(p["kind"], [])
+            for label, val in kinds:
+                cells.append({"kind": "wrong-kind", "cmd": cmd, "param": pname, "pkind": p["kind"], "label": label,
+                              "value": val})
+            if p["kind"] in ("result", "results") and p.get("data", True):
+                cells.append({"kind": "wrong-output-kind", "cmd": cmd, "param": pname, "producer": "pv"})
+                cells.append({"kind": "wrong-output-kind", "cmd": cmd, "param": pname, "producer": "out"})
+                if p["fz"] is not None:
+                    cells.append({"kind": "fuzzy-swap", "cmd": cmd, "param": pname, "needs_fuzzy": p["fz"]})
+    return cells
+
+
+MATRIX12 = build_matrix(False)
+MATRIX13 = build_matrix(True)
+
+
+# ------------------------------------------------------------------------------------------------
+# models that contain a given command
+# ------------------------------------------------------------------------------------------------
+def model_with(rng, cmd, tier):
+    """A valid model (with PrintVars + EEMSWrite sinks) that contains `cmd` and at least one fuzzy result."""
+    for attempt in range(40):
+        model = modelgen.gen_model(rng, tier, ints=False if rng.random() < 0.7 else None,
+                                   missing=False if rng.random() < 0.7 else None,
+                                   ncmds=rng.randint(3, 8))
+        env = eems.run_model(model["table"], model["cmds"])
+        nf = [c["name"] for c in model["cmds"] if not env[c["name"]].fuzzy]
+        fz = [c["name"] for c in model["cmds"] if env[c["name"]].fuzzy]
+        if not fz:
+            src = rng.choice(nf)
+            extra = {"name": "fz0", "cmd": "CvtToFuzzy", "args": {"InFieldName": src, "TrueThreshold": 2.5,
+                                                                   "FalseThreshold": -1.5}}
+            env["fz0"] = eems.evaluate("CvtToFuzzy", extra["args"], env)
+            model["cmds"].append(extra)
+            fz.append("fz0")
+        names = [c["cmd"] for c in model["cmds"]]
+        if cmd not in names and cmd not in ("EEMSWrite", "PrintVars", "EEMSRead"):
+            ok = False
+            for _ in range(20):
+                args = modelgen.gen_args(rng, cmd, nf, fz, env)
+                if args is None:
+                    break
+                try:
+                    env["tgt"] = eems.evaluate(cmd, args, env)
+                except eems.Precondition:
+                    continue
+                model["cmds"].append({"name": "tgt", "cmd": cmd, "args": args})
+                ok = True
+                break
+            if not ok:
+                continue
+        modelgen.add_sinks(rng, model, write=True, printvars=True)
+        return model
+    raise RuntimeError("could not build a model containing %s" % cmd)
+
+
+def pick_target(rng, model, cmd):
+    cands = [c for c in model["cmds"] if c["cmd"] == cmd]
+    return rng.choice(cands)
+
+
+def concretise(rng, model, cell):
+    """Turn a matrix cell into a located fault on a concrete command of the model (or None)."""
+    tgt = pick_target(rng, model, cell["cmd"])
+    f = {"kind": cell["kind"], "target": tgt["name"], "cmd": cell["cmd"]}
+    env = None
+    if cell["kind"] in ("missing-param",):
+        if cell["param"] not in tgt["args"]:
+            return None
+        f["param"] = cell["param"]
+    elif cell["kind"] == "wrong-kind":
+        f["param"] = cell["param"]
+        f["pkind"] = cell["pkind"]
+        f["label"] = cell["label"]
+        cur = tgt["args"].get(cell["param"])
+        refs = [c["name"] for c in model["cmds"] if c["cmd"] not in ("EEMSWrite", "PrintVars")]
+        ref = (cur[0] if isinstance(cur, list) and cur else cur) if isinstance(cur, (list, str)) else None
+        if not isinstance(ref, str):
+            ref = rng.choice(refs)
+        val = cell["value"]
+
+        def subst(v):
+            if v == "$REF":
+                return ref
+            if isinstance(v, list):
+                return [subst(x) for x in v]
+            return v
+
+        if isinstance(val, str) and val.startswith("$ITEM:"):
+            item = val[len("$ITEM:"):]
+            item = {"abc": "abc", "nosuch": "nosuch", "7": 7, "[1]": [1], "{}": {"K": "v"}, "[$REF]": [ref]}[item]
+            base = list(cur) if isinstance(cur, list) and cur else ([1.5, 2] if cell["pkind"] == "numbers" else [ref])
+            pos = rng.randrange(len(base))
+            base[pos] = item
+            f["value"] = base
+            f["item"] = item
+            f["item_pos"] = pos
+        else:
+            f["value"] = subst(val)
+        if cell["label"] == "relative-no-wd":
+            f["no_wd"] = True
+    elif cell["kind"] == "wrong-output-kind":
+        if tgt["name"] in ("pv", "out"):
+            return None
+        f["param"] = cell["param"]
+        f["producer"] = cell["producer"]
+        if cell["param"] not in tgt["args"]:
+            return None
+    elif cell["kind"] == "fuzzy-swap":
+        env = eems.run_model(model["table"], model["cmds"])
+        want_fuzzy = not cell["needs_fuzzy"]
+        pool = [n for n, r in env.items() if r.fuzzy == want_fuzzy and n != tgt["name"]]
+        if not pool or cell["param"] not in tgt["args"]:
+            return None
+        f["param"] = cell["param"]
+        f["producer"] = rng.choice(pool)
+        f["producer_fuzzy"] = want_fuzzy
+    return f
+
+
+def apply_fault(nodes, fault):
+    """Mutate rendered-program nodes according to the located fault. Returns info for the oracles."""
+    if not fault:
+        return {}
+    idx = next((i for i, n in enumerate(nodes) if n["name"] == fault["target"]), None)
+    if idx is None:
+        return {"inapplicable": True}
+    node = nodes[idx]
+    kind = fault["kind"]
+    info = {"node": node, "line_of": "command"}
+
+    def setarg(name, value):
+        for a in node["args"]:
+            if a[0] == name:
+                a[1] = value
+                return
+        node["args"].append([name, value])
+
+    def getarg(name):
+        for a in node["args"]:
+            if a[0] == name:
+                return a[1]
+        return None
+
+    if kind == "unknown-command":
+        node["cmd"] = "NoSuchCommand"
+    elif kind == "duplicate-result":
+        dup = copy.deepcopy(node)
+        dup["dup"] = True
+        pos = fault.get("dup_pos", len(nodes))
+        pos = max(idx + 1, min(len(nodes), pos))
+        nodes.insert(pos, dup)
+        info["node"] = dup
+    elif kind == "missing-param":
+        node["args"] = [a for a in node["args"] if a[0] != fault["param"]]
+    elif kind == "extra-param":
+        node["args"].insert(min(len(node["args"]), fault.get("pos", 99)), ["Bogus", 1])
+        info["line_of"] = "arg:Bogus"
+    elif kind == "wrong-kind":
+        setarg(fault["param"], copy.deepcopy(fault["value"]))
+        info["line_of"] = "arg:" + fault["param"]
+    elif kind in ("wrong-output-kind", "fuzzy-swap"):
+        cur = getarg(fault["param"])
+        if isinstance(cur, list):
+            new = list(cur)
+            new[fault.get("item_pos", 0) % len(new)] = fault["producer"]
+        else:
+            new = fault["producer"]
+        setarg(fault["param"], new)
+        info["line_of"] = "arg:" + fault["param"]
+    return info
+
+
+def expected_errors(fault):
+    """Set of acceptable (class name, attribute checks) for a located fault."""
+    k = fault["kind"]
+    if k == "unknown-command":
+        return [("CommandDoesNotExist", {"name": "NoSuchCommand"})]
+    if k == "duplicate-result":
+        return [("DuplicateResult", {"result": fault["target"]})]
+    if k == "missing-param":
+        return [("MissingParameters", {"parameters~": fault["param"], "command": fault["cmd"]})]
+    if k == "extra-param":
+        return [("NoSuchParameter", {"parameter": "Bogus", "command": fault["cmd"]})]
+    if k == "wrong-output-kind":
+        out = [("ResultTypeNotValid", {"result": fault["producer"]})]
+        p = DECL[fault["cmd"]]["params"][fault["param"]]
+        if p["fz"] is True:
+            out.append(("ResultNotFuzzy", {"result": fault["producer"]}))
+        return out
+    if k == "fuzzy-swap":
+        if fault["producer_fuzzy"]:
+            return [("ResultIsFuzzy", {"result": fault["producer"]})]
+        return [("ResultNotFuzzy", {"result": fault["producer"]})]
+    if k == "wrong-kind":
+        lab = fault["label"]
+        v = fault["value"]
+        if lab == "unknown" and fault.get("pkind") == "result":
+            return [("ResultDoesNotExist", {"result": "nosuch"})]
+        if lab == "item-unknown":
+            return [("ResultDoesNotExist", {"result": "nosuch"})]
+        if lab == "missing-file":
+            return [("PathDoesNotExist", {"path$": "nofile.csv"})]
+        if lab == "relative-no-wd":
+            return [("InvalidRelativePath", {"path": v})]
+        if lab.startswith("item-"):
+            item = fault.get("item")
+            return [("ParameterNotValid", {"value": item} if not isinstance(item, (list, dict)) else {})]
+        return [("ParameterNotValid", {"value": v} if not isinstance(v, (list, dict)) else {})]
+    return []
+
+
+def check_expected(exc, fault):
+    """None if exc is one of the expected rejections, else a description."""
+    exps = expected_errors(fault)
+    names = [type(k).__name__ for k in type(exc).__mro__]
+    why = []
+    for cls, attrs in exps:
+        if cls not in [c.__name__ for c in type(exc).__mro__]:
+            why.append("not a %s" % cls)
+            continue
+        bad = None
+        for a, want in attrs.items():
+            if a.endswith("~"):
+                got = getattr(exc, a[:-1], None)
+                try:
+                    ok = want in got
+                except TypeError:
+                    ok = False
+                if not ok:
+                    bad = "%s=%r does not contain %r" % (a[:-1], got, want)
+            elif a.endswith("$"):
+                got = getattr(exc, a[:-1], None)
+                if not (isinstance(got, str) and got.endswith(want)):
+                    bad = "%s=%r does not end with %r" % (a[:-1], got, want)
+            else:
+                got = getattr(exc, a, None)
+                if got != want or type(got) is not type(want) and not (isinstance(got, str) and isinstance(want, str)):
+                    bad = "%s=%r instead of %r" % (a, got, want)
+            if bad:
+                break
+        if bad is None:
+            return None
+        why.append("%s but %s" % (cls, bad))
+    return "; ".join(why) or ("unexpected " + names[0])
+
+
+# ------------------------------------------------------------------------------------------------
+# generation
+# ------------------------------------------------------------------------------------------------
+def generate(prop, rng, index, tier):
+    if prop == "C12":
+        return _generate12(rng, index, tier)
+    return _generate13(rng, index, tier)
+
+
+def _absolutise(model):
+    for c in model["cmds"]:
+        for p in ("InFileName", "OutFileName"):
+            v = c["args"].get(p)
+            if isinstance(v, str) and not v.startswith("/"):
+                c["args"][p] = WORK + "/" + v
+    return model
+
+
+def _common_schedule(rng, model, fault):
+    n = len(model["cmds"])
+    order = list(range(n))
+    r = rng.random()
+    if r < 0.3:
+        pass
+    elif r < 0.5:
+        order.reverse()
+    else:
+        rng.shuffle(order)
+    return {"order": order, "argseed": rng.randrange(1 << 20) if rng.random() < 0.5 else 0,
+            "layout": random_layout(rng, wild=rng.random() < 0.5)}
+
+
+def _generate12(rng, index, tier):
+    cell = MATRIX12[index % len(MATRIX12)]
+    twin = rng.random() < 0.08
+    fault = None
+    for _ in range(20):
+        model = model_with(rng, cell["cmd"], tier)
+        fault = concretise(rng, model, cell)
+        if fault is not None:
+            break
+    if fault is None:
+        twin = True
+    sch = _common_schedule(rng, model, fault)
+    sch["layout"]["eol"] = "\n"
+    route = "cli" if rng.random() < 0.3 else "lib"
+    if fault and fault.get("no_wd"):
+        route = "lib"
+        _absolutise(model)
+        if fault["param"] == "InFileName":
+            fault["value"] = "in.csv"
+    if fault and fault["kind"] == "duplicate-result":
+        fault["dup_pos"] = rng.randint(0, len(model["cmds"]) + 1)
+    if fault and fault["kind"] == "extra-param":
+        fault["pos"] = rng.randint(0, 6)
+    sc = {"engine": "modelsim", "prop": "C12", "mode": "fault12", "model": model, "fault": None if twin else fault,
+          "cell": {k: v for k, v in cell.items() if k != "value"}, "route": route, "no_wd": bool(fault and fault.get("no_wd")
+                                                                                               and not twin)}
+    sc.update(sch)
+    if sc["no_wd"] is False and fault and fault.get("no_wd"):
+        sc["no_wd"] = False
+    return sc
+
+
+# ---- chaos (C13) -----------------------------------------------------------------------------------------
+TEXT_OPS = ("delete", "duplicate", "swap", "unbalance-open", "unbalance-close", "quote-open", "backslash-x",
+            "backslash-u", "backslash-N", "backslash-end", "non-ascii", "nul", "strip-result", "garbage-char",
+            "number-exp", "v2-head", "colon-in-list", "empty-arglist")
+CSV_OPS = ("empty", "header-only", "ragged-short", "ragged-long", "non-numeric", "missing-column", "dup-header",
+           "truncated", "nul-bytes", "huge", "inf", "nan", "blank-first", "bom", "quoted-cell", "empty-cell")
+FS_OPS = (("open", "in", "ENOENT"), ("open", "in", "EACCES"), ("open", "in", "EMFILE"), ("open", "in", "EIO"),
+          ("read", "in", "EIO"), ("open", "out", "EACCES"), ("open", "out", "ENOSPC"), ("open", "out", "EISDIR"),
+          ("write", "out", "ENOSPC"), ("close", "out", "EIO"), ("open", "print", "EACCES"), ("write", "print", "ENOSPC"),
+          ("exists", "in", "EACCES"), ("undecodable", "in", ""))
+ACTOR_OPS = (("delete", "in"), ("replace-garbage", "in"), ("replace-empty", "in"), ("unreadable", "in"),
+             ("create", "out"))
+EXEC_EXC = ("MemoryError", "OSError", "RuntimeError", "KeyError", "ZeroDivisionError", "RecursionError")
+
+
+def _generate13(rng, index, tier):
+    cell = MATRIX13[index % len(MATRIX13)]
+    model = model_with(rng, cell["cmd"], tier)
+    # swarm: each run enables a random subset of fault kinds
+    enabled = [k for k in ("text", "csv", "kind", "fs", "actor", "exec") if rng.random() < 0.5] or ["kind"]
+    nf = rng.choices([0, 1, 2], weights=[15, 60, 25])[0]
+    faults = []
+    for _ in range(nf):
+        k = rng.choice(enabled)
+        if k == "text":
+            faults.append({"kind": "text", "op": rng.choice(TEXT_OPS), "tok": rng.randrange(10000),
+                           "tok2": rng.randrange(10000)})
+        elif k == "csv":
+            faults.append({"kind": "csv", "op": rng.choice(CSV_OPS), "row": rng.randrange(100), "col": rng.randrange(100)})
+        elif k == "kind":
+            f = concretise(rng, model, cell)
+            if f is not None:
+                f = dict(f)
+                f["fkind"] = f["kind"]
+                f["kind"] = "located"
+                faults.append(f)
+        elif k == "fs":
+            op, which, err = rng.choice(FS_OPS)
+            faults.append({"kind": "fs", "op": op, "which": which, "err": err, "nth": rng.choice([0, 0, 1, 2]),
+                           "after": rng.choice([0, 1, 5, 20, 60])})
+        elif k == "actor":
+            do, which = rng.choice(ACTOR_OPS)
+            faults.append({"kind": "actor", "do": do, "which": which,
+                           "at_op": rng.choice(["exists", "exists", "open"]), "at_nth": rng.choice([0, 1, 1, 2])})
+        elif k == "exec":
+            tgt = rng.choice(model["cmds"])
+            faults.append({"kind": "exec", "cmd": tgt["name"], "exc": rng.choice(EXEC_EXC)})
+    sch = _common_schedule(rng, model, None)
+    sch["layout"]["eol"] = "\n"
+    route = rng.choice(["lib", "lib", "cli"])
+    extra = None
+    r = rng.random()
+    if r < 0.04:
+        extra = "netcdf-missing-variable"
+        route = "cli"
+    elif r < 0.08:
+        extra = "duplicate-library"
+        route = "cli"
+    sc = {"engine": "modelsim", "prop": "C13", "mode": "chaos", "model": model, "faults": faults, "route": route,
+          "cell": {k: v for k, v in cell.items() if k != "value"}, "extra": extra}
+    sc.update(sch)
+    return sc
+
+
+# ------------------------------------------------------------------------------------------------
+# text and CSV corruption (pure functions of the scenario)
+# ------------------------------------------------------------------------------------------------
+TOKEN_RE = re.compile(r'''("(?:\\.|[^"\\])*"|'(?:\\.|[^'\\])*'|[A-Za-z_][A-Za-z_0-9]*|[-+]?\d+\.\d*|[-+]?\d+|[()\[\],=:]|\#[^\n]*|\s+|.)''',
+                      re.S)
+
+
+def corrupt_text(text, f):
+    toks = TOKEN_RE.findall(text)
+    sig = [i for i, t in enumerate(toks) if not t.isspace() and not t.startswith("#")]
+    if not sig:
+        return text
+    i = sig[f["tok"] % len(sig)]
+    j = sig[f["tok2"] % len(sig)]
+    op = f["op"]
+    strs = [k for k in sig if toks[k][0] in "\"'"]
+    if op == "delete":
+        toks[i] = ""
+    elif op == "duplicate":
+        toks[i] = toks[i] + " " + toks[i]
+    elif op == "swap":
+        toks[i], toks[j] = toks[j], toks[i]
+    elif op == "unbalance-open":
+        toks[i] = toks[i] + " ["
+    elif op == "unbalance-close":
+        toks[i] = toks[i] + " )"
+    elif op == "quote-open":
+        toks[i] = '"' + toks[i]
+    elif op in ("backslash-x", "backslash-u", "backslash-N", "backslash-end", "non-ascii", "nul"):
+        ins = {"backslash-x": "\\x", "backslash-u": "\\u12", "backslash-N": "\\N{nope}", "backslash-end": "\\",
+               "non-ascii": "\u00e9\u4e2d", "nul": "\x00"}[op]
+        if strs:
+            k = strs[f["tok"] % len(strs)]
+            t = toks[k]
+            toks[k] = t[:-1] + ins + t[-1]
+        else:
+            toks[i] = '"a' + ins + '"'
+    elif op == "strip-result":
+        # `R = Cmd(` -> `Cmd(`  (turns the file into EEMS 2.0 syntax)
+        heads = [k for k in sig if toks[k] == "="]
+        if heads:
+            k = heads[f["tok"] % len(heads)]
+            prev = [x for x in sig if x < k]
+            if prev:
+                toks[prev[-1]] = ""
+                toks[k] = ""
+    elif op == "garbage-char":
+        toks[i] = toks[i] + rng_char(f["tok2"])
+    elif op == "number-exp":
+        toks[i] = "1e-05"
+    elif op == "v2-head":
+        toks[i] = toks[i] + "\nREAD(InFieldName = [a, b], InFileName = 5)\n"
+    elif op == "colon-in-list":
+        toks[i] = "[a: b, c]"
+    elif op == "empty-arglist":
+        toks[i] = toks[i] + "\nZ = Sum()\n"
+    return "".join(toks)
+
+
+def rng_char(n):
+    return "!@$%^&*;~`|<>?{}"[n % 16]
+
+
+def corrupt_csv(text, f):
+    lines = text.split("\n")
+    body = [k for k in range(1, len(lines)) if lines[k] != ""]
+    op = f["op"]
+    if op == "empty":
+        return ""
+    if op == "header-only":
+        return lines[0] + "\n"
+    if op == "blank-first":
+        return "\n" + text
+    if op == "bom":
+        return "\ufeff" + text
+    if not body:
+        return text
+    r = body[f["row"] % len(body)]
+    cells = lines[r].split(",")
+    c = f["col"] % len(cells)
+    if op == "ragged-short":
+        lines[r] = ",".join(cells[:max(0, len(cells) - 1 - c)])
+        if lines[r] == "":
+            lines[r] = ","
+    elif op == "ragged-long":
+        lines[r] = lines[r] + ",1,2"
+    elif op == "non-numeric":
+        cells[c] = "n/a"
+        lines[r] = ",".join(cells)
+    elif op == "missing-column":
+        h = lines[0].split(",")
+        h[f["col"] % len(h)] = "zz"
+        lines[0] = ",".join(h)
+    elif op == "dup-header":
+        h = lines[0].split(",")
+        h[f["col"] % len(h)] = h[0]
+        lines[0] = ",".join(h)
+    elif op == "truncated":
+        last = body[-1]
+        lines[last] = lines[last][: max(1, len(lines[last]) // 2)]
+        lines = lines[: last + 1]
+        return "\n".join(lines)
+    elif op == "nul-bytes":
+        cells[c] = "\x00"
+        lines[r] = ",".join(cells)
+    elif op in ("huge", "inf", "nan"):
+        cells[c] = {"huge": "1e999", "inf": "inf", "nan": "nan"}[op]
+        lines[r] = ",".join(cells)
+    elif op == "quoted-cell":
+        cells[c] = '"1,5"'
+        lines[r] = ",".join(cells)
+    elif op == "empty-cell":
+        cells[c] = ""
+        lines[r] = ",".join(cells)
+    return "\n".join(lines)
+
+
+# ------------------------------------------------------------------------------------------------
+# execution
+# ------------------------------------------------------------------------------------------------
+def _side_effects_before(log, upto):
+    """Side effects recorded on the event sequence before position `upto`."""
+    execs = writes = stdout = actor = 0
+    for kind, p in log.events[:upto]:
+        if kind == "exec-enter":
+            execs += 1
+        elif kind == "fs" and p.get("op") == "open" and str(p.get("mode", ""))[:1] in ("w", "a", "x"):
+            writes += 1
+        elif kind == "stdout":
+            stdout += 1
+    return execs, writes, stdout
+
+
+def _paths(model):
+    out = {"in": model["table"]["path"], "model": MODEL_PATH}
+    for c in model["cmds"]:
+        if c["cmd"] == "EEMSWrite":
+            v = c["args"].get("OutFileName")
+            if isinstance(v, str):
+                out["out"] = v if v.startswith("/") else WORK + "/" + v
+        if c["cmd"] == "PrintVars" and isinstance(c["args"].get("OutFileName"), str):
+            v = c["args"]["OutFileName"]
+            out["print"] = v if v.startswith("/") else WORK + "/" + v
+    return out
+
+
+def _all_command_classes():
+    from mpilot.commands import Command
+    return [info.command for info in Command.get_commands() if info.module.startswith("mpilot.libraries")]
+
+
+def run_once(sc, log, res, route, text, csv, fs_faults, actor, exec_faults, libraries=None, cli_args=None):
+    """One pass of the pipeline.  Returns dict(outcome, exc, exit_code, cap, fs, reject_seq)."""
+    from mpilot.program import Program
+
+    model = sc["model"]
+    files = {model["table"]["path"]: csv} if csv is not None else {}
+    if route == "cli":
+        files[MODEL_PATH] = text
+    fs = SimFS(log, res, files=files, dirs=[WORK], faults=fs_faults, actor=actor)
+    pending = {f["cmd"]: f for f in exec_faults}
+
+    def on_enter(inst, key):
+        f = pending.get(key)
+        if f and not f.get("_done"):
+            f["_done"] = True
+            res.fired("exec-" + f["exc"])
+            log.emit("fault", cmd=key, exc=f["exc"])
+            import builtins
+            raise getattr(builtins, f["exc"])("injected " + f["exc"])
+
+    mon = ExecMonitor(log, on_enter=on_enter)
+    out = {"outcome": "ok", "exc": None, "exit_code": None, "fs": fs, "monitor": mon}
+    log.emit("route", route=route)
+    with fs, StdCapture(log) as cap:
+        out["cap"] = cap
+        try:
+            if route == "lib":
+                wd = None if sc.get("no_wd") else WORK
+                if libraries:
+                    program = Program.from_source(text, libraries=libraries, working_dir=wd)
+                else:
+                    program = Program.from_source(text, working_dir=wd)
+                mon.install(list(program.command_library.values()))
+                program.run()
+            else:
+                from mpilot.cli.mpilot import main
+                mon.install(_all_command_classes())
+                main.main(args=cli_args or ["eems-csv", MODEL_PATH], standalone_mode=False)
+        except SimAbort:
+            raise
+        except SystemExit as exc:
+            out["outcome"] = "exit"
+            out["exit_code"] = exc.code
+            out["reject_seq"] = log.seq
+            log.emit("exit", code=exc.code if isinstance(exc.code, int) else repr(exc.code))
+        except Exception as exc:
+            out["outcome"] = "raise"
+            out["exc"] = exc
+            out["reject_seq"] = log.seq
+            log.emit("pipeline-raise", exc=type(exc).__name__)
+        finally:
+            mon.uninstall()
+    return out
+
+
+def build_text(sc):
+    from .modelsim import program_nodes
+    model = sc["model"]
+    nodes = program_nodes(model["cmds"], sc.get("order"), sc.get("argseed", 0))
+    return nodes
+
+
+def execute(sc):
+    if sc["mode"] == "fault12":
+        return _execute12(sc)
+    return _execute13(sc)
+
+
+def _in_domain(model, res, log):
+    """A shrunk scenario may leave the documented domain of its commands: then it is not a case."""
+    try:
+        eems.run_model(model["table"], model["cmds"])
+        return True
+    except (eems.Precondition, KeyError) as exc:
+        res.observe("scenario outside the documented domain")
+        log.emit("invalid-scenario", why=str(exc)[:100])
+        return False
+
+
+def _execute12(sc):
+    from mpilot.exceptions import MPilotError
+    res = RunResult()
+    model = sc["model"]
+    log = EventLog(cap=4000 + 300 * len(model["cmds"]))
+    res.log = log
+    fault = sc.get("fault")
+    log.emit("scenario", prop="C12", fault=({k: v for k, v in fault.items() if k != "value"} if fault else None),
+             route=sc["route"])
+    if not _in_domain(model, res, log):
+        return res
+    nodes = build_text(sc)
+    info = apply_fault(nodes, fault)
+    if info.get("inapplicable"):
+        res.observe("fault not applicable after shrinking")
+        return res
+    try:
+        text, ledger = render(nodes, sc.get("layout") or PLAIN)
+    except ValueError as exc:
+        res.observe("unrenderable scenario: %s" % exc)
+        return res
+    csv = modelgen.csv_text(model["table"])
+    paths = _paths(model)
+    label = _fault_label(fault)
+    with Hygiene():
+        out = run_once(sc, log, res, "lib", text, csv, [], [], [])
+        _judge12(sc, res, log, out, fault, label, paths, "lib")
+        if sc["route"] == "cli" and not sc.get("no_wd"):
+            start = log.seq
+            out2 = run_once(sc, log, res, "cli", text, csv, [], [], [])
+            _judge12_cli(sc, res, log, out, out2, fault, label, paths, start)
+    pos = [n["name"] for n in nodes]
+    res.case_key = h64([sc.get("cell"), [c["cmd"] for c in model["cmds"]], label])
+    res.schedule_key = h64([sc.get("order"), label])
+    res.state_keys.add(h64([label, out["outcome"]]))
+    res.nontrivial = True
+    if fault:
+        res.configured("located-" + fault["kind"])
+        res.fired("located-" + fault["kind"])
+        # position probes
+        writer = pos.index("out") if "out" in pos else None
+        tpos = pos.index(fault["target"]) if fault["target"] in pos else None
+        if writer is not None and tpos is not None:
+            res.probe("fault after the writer in the file" if tpos > writer else "fault before the writer in the file")
+        res.probe("matrix cell: %s" % fault["kind"])
+    else:
+        res.probe("unfaulted twin (accepted side)")
+    if sc["route"] == "cli":
+        res.probe("CLI route")
+    return res
+
+
+def _fault_label(fault):
+    if not fault:
+        return "none"
+    bits = [fault["kind"], fault.get("cmd", "?")]
+    if fault.get("param"):
+        bits.append(fault["param"])
+    if fault.get("label"):
+        bits.append(fault["label"])
+    if fault.get("producer") in ("pv", "out"):
+        bits.append("producer=" + {"pv": "PrintVars", "out": "EEMSWrite"}[fault["producer"]])
+    return " ".join(bits)
+
+
+def _sig12(what, fault, exc=None):
+    """Narrow signature: what went wrong x fault class x (exception and where it came from)."""
+    bits = ["C12." + what]
+    if fault:
+        bits.append(fault["kind"])
+        if fault["kind"] == "wrong-kind":
+            bits.append("%s<-%s" % (fault.get("pkind"), fault.get("label")))
+        if fault.get("producer") in ("pv", "out"):
+            bits.append("producer=" + {"pv": "PrintVars", "out": "EEMSWrite"}[fault["producer"]])
+    if exc is not None:
+        inner = getattr(exc, "exc", None)
+        bits.append(type(exc).__name__ + (":" + type(inner).__name__ if isinstance(inner, BaseException) else ""))
+        if not _is_mpilot(exc):
+            bits.append("at " + ":".join(innermost_frame(exc)))
+    return " ".join(bits)
+
+
+def _is_mpilot(exc):
+    return any(c.__name__ == "MPilotError" for c in type(exc).__mro__)
+
+
+def _judge12(sc, res, log, out, fault, label, paths, route):
+    fs = out["fs"]
+    if not fault:
+        if out["outcome"] != "ok":
+            res.violate("C12.accept", _sig12("accept well-formed-model-rejected", None, out["exc"]),
+                        "a well-formed model was rejected: %r" % (out["exc"],))
+        return
+    if out["outcome"] == "ok":
+        res.violate("C12.reject", _sig12("reject accepted", fault),
+                    "model with fault [%s] was accepted and ran to completion" % label)
+        return
+    exc = out["exc"]
+    why = check_expected(exc, fault)
+    if why is not None:
+        res.violate("C12.error", _sig12("error wrong-rejection", fault, exc),
+                    "fault [%s] was rejected with %s: %s (%s)" % (label, type(exc).__name__, why, str(exc)[:200]))
+    execs, writes, stdout = _side_effects_before(log, out["reject_seq"])
+    if execs or writes or stdout or fs.mutations:
+        res.violate("C12.effects", _sig12("effects side-effect-before-rejection", fault),
+                    "fault [%s]: before the rejection %d commands executed, %d files were opened for writing, "
+                    "%d writes to stdout, %d file changes" % (label, execs, writes, stdout, fs.mutations))
+
+
+def _judge12_cli(sc, res, log, lib_out, out, fault, label, paths, start):
+    fs = out["fs"]
+    if not fault:
+        if out["outcome"] != "ok":
+            res.violate("C12.accept", _sig12("accept cli-rejected-well-formed-model", None, out["exc"]),
+                        "CLI rejected a well-formed model: %r %r" % (out["outcome"], out["exc"]))
+        return
+    if out["outcome"] == "ok" or (out["outcome"] == "exit" and out["exit_code"] in (0, None)):
+        res.violate("C12.cli", _sig12("cli exit-status-zero", fault),
+                    "CLI exited with success for a model with fault [%s]" % label)
+    ev = log.events[start:out.get("reject_seq", log.seq)]
+    execs = sum(1 for k, p in ev if k == "exec-enter")
+    writes = sum(1 for k, p in ev if k == "fs" and p.get("op") == "open" and str(p.get("mode", ""))[:1] in "wax")
+    stdout = sum(1 for k, p in ev if k == "stdout")
+    produced = [p for key, p in paths.items() if key in ("out", "print") and p in fs.files]
+    if execs or writes or stdout or produced:
+        res.violate("C12.effects", _sig12("effects cli-side-effect-before-rejection", fault),
+                    "CLI, fault [%s]: %d commands executed, %d write-opens, %d stdout writes, files produced %r"
+                    % (label, execs, writes, stdout, produced))
+
+
+# ---- chaos ------------------------------------------------------------------------------------------
+def _execute13(sc):
+    res = RunResult()
+    model = sc["model"]
+    log = EventLog(cap=8000 + 400 * len(model["cmds"]))
+    res.log = log
+    faults = sc.get("faults", [])
+    log.emit("scenario", prop="C13", route=sc["route"], extra=sc.get("extra"),
+             faults=[{k: v for k, v in f.items() if k not in ("value",)} for f in faults])
+    if not _in_domain(model, res, log):
+        return res
+    nodes = build_text(sc)
+    for f in faults:
+        if f["kind"] == "located":
+            g = dict(f)
+            g["kind"] = f["fkind"]
+            apply_fault(nodes, g)
+            res.configured("kind-confusion")
+            res.fired("kind-confusion")
+    try:
+        text, ledger = render(nodes, sc.get("layout") or PLAIN)
+    except ValueError as exc:
+        res.observe("unrenderable scenario")
+        return res
+    csv = modelgen.csv_text(model["table"])
+    paths = _paths(model)
+    fs_faults, actor, exec_faults = [], [], []
+    undecodable = False
+    for f in faults:
+        if f["kind"] == "text":
+            new = corrupt_text(text, f)
+            res.configured("text-" + f["op"])
+            if new != text:
+                res.fired("text-" + f["op"])
+            text = new
+        elif f["kind"] == "csv":
+            new = corrupt_csv(csv, f)
+            res.configured("csv-" + f["op"])
+            if new != csv:
+                res.fired("csv-" + f["op"])
+            csv = new
+        elif f["kind"] == "fs":
+            p = paths.get(f["which"])
+            if p is None:
+                continue
+            if f["op"] == "undecodable":
+                undecodable = True
+                continue
+            fs_faults.append({"op": f["op"], "path": p, "nth": f.get("nth", 0), "err": f["err"],
+                              "after": f.get("after", 0)})
+        elif f["kind"] == "actor":
+            p = paths.get(f["which"])
+            if p is None:
+                continue
+            do = f["do"]
+            step = {"at": {"op": f["at_op"], "path": paths["in"], "nth": f["at_nth"]}, "path": p}
+            if do == "replace-garbage":
+                step.update(do="replace", content="\x00\x01garbage,,\n1,2\n")
+            elif do == "replace-empty":
+                step.update(do="replace", content="")
+            elif do == "create":
+                step.update(do="create", content="stale")
+            else:
+                step.update(do=do)
+            actor.append(step)
+        elif f["kind"] == "exec":
+            exec_faults.append(dict(f))
+            res.configured("exec-" + f["exc"])
+    if undecodable:
+        csv = csv.encode("utf-8") + b"\xff\xfe,\xc3\n"
+        res.configured("fs-undecodable")
+        res.fired("fs-undecodable")
+    libraries = None
+    cli_args = None
+    extra = sc.get("extra")
+    if extra == "netcdf-missing-variable":
+        import os
+        nc = os.path.join(os.environ.get("MPSIM_SCRATCH", ""), "repo_test_data", "netcdf_test.nc")
+        text = 'X = EEMSRead(InFileName = "%s", InFieldName = nosuchvar)\n' % nc
+        cli_args = ["eems-netcdf", MODEL_PATH]
+        libraries = ("mpilot.libraries.eems.basic", "mpilot.libraries.eems.netcdf", "mpilot.libraries.eems.fuzzy")
+    elif extra == "duplicate-library":
+        cli_args = ["eems-csv", MODEL_PATH, "-l", "mpsim_duplib"]
+        libraries = ("mpsim_duplib", "mpilot.libraries.eems.basic", "mpilot.libraries.eems.csv",
+                     "mpilot.libraries.eems.fuzzy")
+    from mpilot.exceptions import MPilotError
+    with Hygiene():
+        out = run_once(sc, log, res, "lib", text, csv, copy.deepcopy(fs_faults), copy.deepcopy(actor),
+                       copy.deepcopy(exec_faults), libraries=libraries)
+        lib_kind = _classify(out, MPilotError)
+        res.state_keys.add(h64(["lib", lib_kind, type(out["exc"]).__name__ if out["exc"] else None]))
+        if lib_kind == "escape":
+            exc = out["exc"]
+            frame = innermost_frame(exc)
+            res.violate("C13.escape", "C13.escape %s at %s:%s" % (type(exc).__name__, frame[0], frame[1]),
+                        "library route: %s escaped from loading/running: %s [faults: %s]"
+                        % (type(exc).__name__, str(exc)[:200], _fault_summary(faults, extra)))
+        else:
+            res.probe("library outcome: " + lib_kind)
+        if sc["route"] == "cli":
+            out2 = run_once(sc, log, res, "cli", text, csv, copy.deepcopy(fs_faults), copy.deepcopy(actor),
+                            copy.deepcopy(exec_faults), cli_args=cli_args)
+            _judge13_cli(sc, res, out, lib_kind, out2, faults, extra, MPilotError)
+    res.case_key = h64([[c["cmd"] for c in model["cmds"]], faults, extra])
+    res.schedule_key = h64([sc.get("order"), faults])
+    res.nontrivial = bool(faults) or bool(extra)
+    if not faults:
+        res.probe("fault-free run")
+    return res
+
+
+def _fault_summary(faults, extra):
+    bits = []
+    for f in faults:
+        if f["kind"] == "located":
+            bits.append("%s %s.%s<-%s" % (f["fkind"], f.get("cmd"), f.get("param"), f.get("label")))
+        elif f["kind"] in ("text", "csv"):
+            bits.append("%s:%s" % (f["kind"], f["op"]))
+        elif f["kind"] == "fs":
+            bits.append("fs:%s-%s-%s" % (f["op"], f["which"], f["err"]))
+        elif f["kind"] == "actor":
+            bits.append("actor:%s-%s@%s#%d" % (f["do"], f["which"], f["at_op"], f["at_nth"]))
+        elif f["kind"] == "exec":
+            bits.append("exec:%s" % f["exc"])
+    if extra:
+        bits.append(extra)
+    return ", ".join(bits) or "none"
+
+
+def _classify(out, MPilotError):
+    if out["outcome"] == "ok":
+        return "success"
+    if out["outcome"] == "exit":
+        return "exit"
+    exc = out["exc"]
+    if isinstance(exc, MPilotError):
+        return "mpilot-error"
+    if isinstance(exc, SyntaxError):
+        return "syntax-error"
+    return "escape"
+
+
+def _judge13_cli(sc, res, lib_out, lib_kind, out, faults, extra, MPilotError):
+    kind = _classify(out, MPilotError)
+    err = out["cap"].err.getvalue()
+    sout = out["cap"].out.getvalue()
+    summary = _fault_summary(faults, extra)
+    # faults on the model file itself happen before parsing begins: recorded, not judged
+    if kind == "escape":
+        exc = out["exc"]
+        frame = innermost_frame(exc)
+        if lib_kind != "escape":
+            res.violate("C13.escape", "C13.escape-cli %s at %s:%s" % (type(exc).__name__, frame[0], frame[1]),
+                        "CLI route: %s escaped: %s [faults: %s]" % (type(exc).__name__, str(exc)[:200], summary))
+        return
+    if kind == "mpilot-error":
+        exc = out["exc"]
+        res.violate("C13.cli", "C13.cli mpilot-error-not-reported %s" % type(exc).__name__,
+                    "CLI let %s propagate instead of reporting it and exiting non-zero [faults: %s]"
+                    % (type(exc).__name__, summary))
+        return
+    if lib_kind == "mpilot-error":
+        lib_exc = lib_out["exc"]
+        if kind == "success" or (kind == "exit" and out["exit_code"] in (0, None)):
+            res.violate("C13.cli", "C13.cli exit-zero-on-error",
+                        "library route failed with %s but the CLI exited with success [faults: %s]"
+                        % (type(lib_exc).__name__, summary))
+            return
+        if kind == "exit":
+            res.probe("CLI reported an MPilot error with non-zero exit")
+            hexaddr = re.compile(r"0x[0-9a-fA-F]+")
+            first = hexaddr.sub("0x", str(lib_exc).split("\n")[0])[:60]
+            err = hexaddr.sub("0x", err)
+            if "Problem:" in str(lib_exc) and "Problem:" not in err:
+                res.violate("C13.cli", "C13.cli message-not-on-stderr",
+                            "CLI exit %r but stderr lacks the problem/solution message (stderr=%r, stdout=%r) "
+                            "[faults: %s]" % (out["exit_code"], err[:200], sout[:100], summary))
+            elif first and first not in err and not isinstance(getattr(lib_exc, "exc", None), BaseException):
+                res.violate("C13.cli", "C13.cli message-not-on-stderr",
+                            "CLI stderr does not contain the error's own message %r [faults: %s]" % (first, summary))
+            if "Traceback (most recent call last)" in err and type(lib_exc).__name__ != "UnexpectedError":
+                res.violate("C13.cli", "C13.cli traceback-on-stderr",
+                            "CLI printed a traceback for %s [faults: %s]" % (type(lib_exc).__name__, summary))
+
+
+# ------------------------------------------------------------------------------------------------
+# shrinking and samples
+# ------------------------------------------------------------------------------------------------
+def shrink_candidates(sc):
+    def clone():
+        return copy.deepcopy(sc)
+
+    model = sc["model"]
+    cmds = model["cmds"]
+    keep = set()
+    f12 = sc.get("fault")
+    if f12:
+        keep.add(f12["target"])
+        if f12.get("producer"):
+            keep.add(f12["producer"])
+    for f in sc.get("faults", []):
+        for k in ("target", "producer", "cmd"):
+            if isinstance(f.get(k), str):
+                keep.add(f[k])
+    # fewer faults (chaos)
+    if sc["mode"] == "chaos":
+        for i in range(len(sc["faults"])):
+            c = clone()
+            del c["faults"][i]
+            yield c
+        if sc.get("route") == "cli":
+            c = clone()
+            c["route"] = "lib"
+            yield c
+    elif sc.get("route") == "cli":
+        c = clone()
+        c["route"] = "lib"
+        yield c
+    used = set()
+    for cm in cmds:
+        used.update(eems.refs_of(cm))
+    for i in reversed(range(len(cmds))):
+        name = cmds[i]["name"]
+        if name in used or name in keep or len(cmds) <= 1:
+            continue
+        c = clone()
+        del c["model"]["cmds"][i]
+        c["order"] = [j - (1 if j > i else 0) for j in c.get("order", []) if j != i]
+        yield c
+    # bypass commands
+    for i, cm in enumerate(cmds):
+        refs = eems.refs_of(cm)
+        if cm["cmd"] == "EEMSRead" or not refs or cm["name"] in keep:
+            continue
+        c = clone()
+        tgt, repl = cm["name"], refs[0]
+        for other in c["model"]["cmds"]:
+            for p in eems.REF_PARAMS:
+                v = other["args"].get(p)
+                if isinstance(v, list):
+                    other["args"][p] = [repl if x == tgt else x for x in v]
+                elif v == tgt:
+                    other["args"][p] = repl
+        del c["model"]["cmds"][i]
+        c["order"] = [j - (1 if j > i else 0) for j in c.get("order", []) if j != i]
+        yield c
+    if sc.get("layout") != PLAIN:
+        c = clone()
+        c["layout"] = dict(PLAIN)
+        yield c
+    if sc.get("argseed"):
+        c = clone()
+        c["argseed"] = 0
+        yield c
+    if sc.get("order") != sorted(sc.get("order", [])):
+        c = clone()
+        c["order"] = sorted(c["order"])
+        yield c
+    cols = model["table"]["columns"]
+    nrows = len(cols[0]["values"])
+    if nrows > 2:
+        for r in range(nrows):
+            c = clone()
+            for col in c["model"]["table"]["columns"]:
+                del col["values"][r]
+            c["model"]["table"]["blank_after_rows"] = []
+            yield c
+
+
+def sample(sc):
+    nodes = build_text(sc)
+    if sc["mode"] == "fault12":
+        apply_fault(nodes, sc.get("fault"))
+    else:
+        for f in sc.get("faults", []):
+            if f["kind"] == "located":
+                g = dict(f)
+                g["kind"] = f["fkind"]
+                apply_fault(nodes, g)
+    try:
+        text, _ = render(nodes, sc.get("layout") or PLAIN)
+    except ValueError:
+        text = "<unrenderable>"
+    out = {"route": sc.get("route"), "command_file_before_text_corruption": text}
+    if sc["mode"] == "fault12":
+        out["located_fault"] = _fault_label(sc.get("fault"))
+    else:
+        out["faults"] = _fault_summary(sc.get("faults", []), sc.get("extra"))
+    return out
